@@ -572,6 +572,11 @@ theorem decOp_sticky (d : DecOp) (a b : DecState) (h : d.run a = .ok b) (hne : a
   | optsParse f =>
     simp only [DecOp.run] at h
     split at h <;> (simp only [Except.ok.injEq] at h; subst h; exact hne)
+  | stopIfAbsent f =>
+    simp only [DecOp.run] at h
+    split at h
+    · simp at h
+    · simp only [Except.ok.injEq] at h; subst h; exact hne
   | unsupported pos => simp [DecOp.run] at h
 
 /-! ### statement lists -/
@@ -992,22 +997,24 @@ def PduDesc.checkDecodedFits (p : PduDesc) : Bool :=
   | none => false
   | some (lf, its) =>
     fitsOK [] its && (p.fin != .withLength || !(allSets its).contains lf) && (normOK its || asgIdleOK its) &&
-    (p.ret != .nilAlways || its.all numOrAsg)
+    (p.ret != .nilAlways || its.all numOrAsg) && p.dec.all (fun d => !d.isStop)
 
-theorem runDec_error (ds : List DecOp) : ∀ (st : DecState) (o : DecOutcome), runDec ds st = .error o →
-    ∃ pos, o = .unsupported pos := by
+theorem runDec_error (ds : List DecOp) (hns : ds.all (fun d => !d.isStop) = true) :
+    ∀ (st : DecState) (o : DecOutcome), runDec ds st = .error o → ∃ pos, o = .unsupported pos := by
   induction ds with
   | nil => intro st o h; simp [runDec] at h
   | cons d ds ih =>
     intro st o h
+    simp only [List.all_cons, Bool.and_eq_true, Bool.not_eq_true'] at hns
     simp only [runDec] at h
     cases hd : d.run st with
-    | ok st1 => simp only [hd] at h; exact ih st1 o h
+    | ok st1 => simp only [hd] at h; exact ih hns.2 st1 o h
     | error e =>
       simp only [hd, Except.error.injEq] at h
       subst h
       cases d <;> simp [DecOp.run] at hd
       · split at hd <;> simp at hd
+      · simp [DecOp.isStop] at hns
       · exact ⟨_, hd.symm⟩
 
 /-- **decode_fits**: whatever `IDecode` accepts satisfies the preconditions of `IEncode` (after the
@@ -1023,7 +1030,7 @@ theorem decode_fits (p : PduDesc) (h : p.checkDecodedFits = true) (data : Bytes)
   | some pr =>
     obtain ⟨lf, its⟩ := pr
     simp only [hitems, Bool.and_eq_true, Bool.or_eq_true, bne_iff_ne, ne_eq, Bool.not_eq_true'] at h
-    obtain ⟨⟨⟨hok, hlf⟩, hnorm⟩, hret⟩ := h
+    obtain ⟨⟨⟨⟨hok, hlf⟩, hnorm⟩, hret⟩, hnostop⟩ := h
     suffices hboth : (∀ it ∈ its, it.isAsg = false → it.Fits r) ∧
         (p.ret ≠ .nilAlways → wireSum r its + (if p.fin = .withLength then 4 else 0) ≤ data.length) by
       obtain ⟨hfit, hcons⟩ := hboth
@@ -1043,7 +1050,13 @@ theorem decode_fits (p : PduDesc) (h : p.checkDecodedFits = true) (data : Bytes)
       cases hrun : runDec (decBody p.dec) { r := p.fresh, rd := ⟨data, none, 0⟩ } with
       | error o =>
         simp only [hrun] at hdec
-        obtain ⟨pos, hpos⟩ := runDec_error _ _ _ hrun
+        have hns' : (decBody p.dec).all (fun d => !d.isStop) = true := by
+          cases hd : p.dec with
+          | nil => rfl
+          | cons d ds =>
+            rw [hd] at hnostop
+            cases d <;> simp only [decBody] <;> first | exact hnostop | (simp only [List.all_cons, Bool.and_eq_true] at hnostop; exact hnostop.2)
+        obtain ⟨pos, hpos⟩ := runDec_error _ hns' _ _ hrun
         simp [hpos] at hdec
       | ok st' =>
         simp only [hrun] at hdec
@@ -1079,7 +1092,18 @@ theorem decode_fits (p : PduDesc) (h : p.checkDecodedFits = true) (data : Bytes)
                 | some e => simp [he] at hf
               exact ⟨Or.inl he, hdec.symm, fun _ => he⟩
         obtain ⟨herr, rfl, herr2⟩ := herr
+        have hfilt : (decBody p.dec).filter (fun d => !d.isStop) = decBody p.dec := by
+          apply List.filter_eq_self.2
+          intro d hd
+          have hmem : d ∈ p.dec := by
+            cases hpd : p.dec with
+            | nil => rw [hpd] at hd; simp [decBody] at hd
+            | cons x xs =>
+              rw [hpd] at hd
+              cases x <;> simp only [decBody] at hd <;> first | exact hd | exact List.mem_cons_of_mem _ hd
+          exact List.all_eq_true.1 hnostop d hmem
         unfold PduDesc.items at hitems
+        rw [hfilt] at hitems
         split at hitems
         · -- length-prefixed: the first statement reads the length word
           rename_i lf' ds hfin hbody
